@@ -99,6 +99,8 @@ def make_pool(darsia, rng):
         P["U8a"] = darsia.ScalarImage(rs.randint(0, 100, size=(H, W)).astype(np.uint8), dimensions=[0.5 * H, 0.25 * W])
         P["U8b"] = darsia.ScalarImage(rs.randint(0, 100, size=(H, W)).astype(np.uint8), dimensions=[0.5 * H, 0.25 * W])
         P["F32"] = darsia.ScalarImage(rs.rand(H, W).astype(np.float32), dimensions=[0.5 * H, 0.25 * W])
+        P["Fsigned"] = darsia.ScalarImage(rs.rand(H, W) * 3.0 - 1.5, dimensions=[0.5 * H, 0.25 * W])
+        P["Fsum"] = darsia.OpticalImage((rs.rand(H, W, 3) + rs.rand(H, W, 3)).astype(np.float32), color_space="RGB", dimensions=[0.5 * H, 0.25 * W])
     # regions of interest the caller keeps (and uses again): voxel / coordinate corner arrays inside the image and sticking out
     P["roi_vox_in"] = darsia.make_voxel([[0, 0], [2, 2]])
     P["roi_vox_out"] = darsia.make_voxel([[-3, 1], [H + 2, W + 4]])
@@ -130,6 +132,13 @@ def registry(darsia):
     add("astype_class", lambda P, r: P["B"].astype(darsia.Image))
     add("img_as_float", lambda P, r: P["C"].img_as(float))
     add("img_as_ubyte", lambda P, r: P["Cf"].img_as(np.uint8))
+    # conversions of images whose values leave the nominal range of their pixel type (a sum of two normalised images, a signed
+    # difference, values 1..9 in a float image) to every target type
+    # (uint16 is left out: skimage rejects floats outside [-1, 1] for it with a ValueError - a rejection, not a modification)
+    for tname, tt in (("uint8", np.uint8), ("float32", np.float32), ("float64", np.float64), ("bool", bool)):
+        add("img_as_" + tname + "_out_of_range", lambda P, r, tt=tt: P["A"].img_as(tt))
+        add("img_as_" + tname + "_signed", lambda P, r, tt=tt: P["Fsigned"].img_as(tt))
+        add("img_as_" + tname + "_sum", lambda P, r, tt=tt: P["Fsum"].img_as(tt))
     add("to_trichromatic_return", lambda P, r: P["C"].to_trichromatic("HSV", return_image=True))
     add("to_trichromatic_same", lambda P, r: P["C"].to_trichromatic("RGB", return_image=True))
     add("to_monochromatic_gray", lambda P, r: P["C"].to_monochromatic("gray"))
